@@ -511,7 +511,25 @@ def r9_depth_clamp(ctx, prog, ci, rule="C09-R9"):
         for d in (None, 1, MD - 1, MD, MD + 1, MD + 4):
             env = {"depth": d, "self.maxdepth": MD}
             try:
-                concrete.run(clamp, env)
+                # the clamp may live in a helper method:
+                #   depth = self._clamp_depth(depth)
+                rest = []
+                for st in clamp:
+                    v = st.value if isinstance(st, ast.Assign) else None
+                    if isinstance(v, ast.Call) and \
+                            isinstance(v.func, ast.Attribute) and \
+                            norm(v.func.value) == "self" and \
+                            v.func.attr in ci.methods:
+                        h = ci.methods[v.func.attr]
+                        hp_ = [p_ for p_ in h.params if p_ != "self"]
+                        henv = {"self.maxdepth": MD}
+                        for p_, a_ in zip(hp_, v.args):
+                            henv[p_] = concrete.ev(a_, env)
+                        out_, _ = concrete.call(h.node, henv)
+                        env[norm(st.targets[0])] = out_
+                    else:
+                        concrete.run([st], env)
+                clamp_done = True
             except concrete.Unknown as e:
                 raise AnalysisError("%s: depth clamp of %s: %s" % (rule, m, e))
             n += 1
